@@ -25,7 +25,6 @@ const (
 // hErrish has the method set of error but is a different type.
 type hErrish interface{ Error() string }
 
-
 func hResType(k int) reflect.Type {
 	switch k {
 	case hrP0:
